@@ -641,6 +641,9 @@ class Interp:
             if p.name is not None:
                 binds[p.name] = v
             return True
+        if isinstance(v, SVar) and isinstance(p, ast.MatchClass) and not p.patterns and not p.kwd_patterns:
+            r = self.model._isinstance(self, v, self.eval(p.cls, env, mi), p)  # `case int():` on a variable is decided by its kind
+            return r if isinstance(r, bool) else None
         if isinstance(v, Opaque | SVar):
             return None
         if isinstance(p, ast.MatchValue):
